@@ -90,6 +90,14 @@ fn accepted_consistent<P: Pid>(ps: Parser, p: &GenericPacket<P>, body: &[u8]) ->
     }
     let ap = catch(|| adapt::from_lib(p)).map_err(|pm| Fail::new("C04.panic", format!("{name}/accessors/{}", panic_site(&pm)), format!("accessor panicked on accepted body {}: {pm}", inp())))?;
     ensure!(all_strings_utf8(&ap), "C04.invalid_utf8", &name, "accepted body {} contains a string that is not valid UTF-8", inp());
+    // "only permitted properties": placement, multiplicity and values per the specification table (independent of the
+    // library's own validators, which builder and parser share)
+    if let Some((loc, props)) = props_location(&ap) {
+        ensure!(crate::checks::c18::spec_allows(loc, props), "C04.not_buildable", format!("{name}/forbidden_property"), "accepted body {} carries properties the specification does not permit in this packet: {}", inp(), crate::ap::props_brief(props));
+    }
+    if let AP::Connect { v: V::V5, will: Some(w), .. } = &ap {
+        ensure!(crate::checks::c18::spec_allows(Loc::Will, &w.props), "C04.not_buildable", format!("{name}/forbidden_will_property"), "accepted CONNECT {} carries will properties the specification does not permit: {}", inp(), crate::ap::props_brief(&w.props));
+    }
     // structural rules = reconstructibility through the public builder of the same kind
     let rebuilt = catch(|| adapt::to_lib::<P>(&ap)).map_err(|pm| Fail::new("C04.panic", format!("{name}/rebuild/{}", panic_site(&pm)), pm))?;
     match rebuilt {
@@ -141,6 +149,30 @@ pub enum Sub {
     MqttString,
     MqttBinary,
     Vbi,
+}
+
+/// property-carrying location of a v5.0 packet
+fn props_location(ap: &AP) -> Option<(Loc, &[Prop])> {
+    if ap.version() != V::V5 {
+        return None;
+    }
+    let loc = match ap {
+        AP::Connect { .. } => Loc::Connect,
+        AP::Connack { .. } => Loc::Connack,
+        AP::Publish { .. } => Loc::Publish,
+        AP::Ack { kind: AckKind::Puback, .. } => Loc::Puback,
+        AP::Ack { kind: AckKind::Pubrec, .. } => Loc::Pubrec,
+        AP::Ack { kind: AckKind::Pubrel, .. } => Loc::Pubrel,
+        AP::Ack { kind: AckKind::Pubcomp, .. } => Loc::Pubcomp,
+        AP::Subscribe { .. } => Loc::Subscribe,
+        AP::Suback { .. } => Loc::Suback,
+        AP::Unsubscribe { .. } => Loc::Unsubscribe,
+        AP::Unsuback { .. } => Loc::Unsuback,
+        AP::Disconnect { .. } => Loc::Disconnect,
+        AP::Auth { .. } => Loc::Auth,
+        _ => return None,
+    };
+    Some((loc, ap.props()))
 }
 
 pub const ALL_SUBS: [Sub; 6] = [Sub::Property, Sub::Properties, Sub::SubEntry, Sub::MqttString, Sub::MqttBinary, Sub::Vbi];
@@ -471,19 +503,62 @@ pub struct MutCase {
     pub idw: usize,
     pub ap: AP,
     pub muts: Vec<Mut>,
+    /// structured property mutations applied to the abstract packet before it is encoded: properties appended to its
+    /// list (any of the 27 kinds with a valid value, so mostly foreign to the location) ...
+    #[serde(default)]
+    pub extra_props: Vec<Prop>,
+    /// ... and a copy of the k-th property it already has (a forbidden repetition for most kinds)
+    #[serde(default)]
+    pub dup_prop: Option<u16>,
+}
+
+fn props_mut(ap: &mut AP) -> Option<&mut Vec<Prop>> {
+    match ap {
+        AP::Connect { v: V::V5, props, .. } | AP::Connack { v: V::V5, props, .. } | AP::Publish { v: V::V5, props, .. } | AP::Subscribe { v: V::V5, props, .. } | AP::Suback { v: V::V5, props, .. } | AP::Unsubscribe { v: V::V5, props, .. } | AP::Unsuback { v: V::V5, props, .. } => Some(props),
+        AP::Ack { v: V::V5, props: Some(props), .. } | AP::Disconnect { v: V::V5, props: Some(props), .. } | AP::Auth { props: Some(props), .. } => Some(props),
+        _ => None,
+    }
 }
 
 pub fn mut_case_strategy() -> BoxedStrategy<MutCase> {
     let o = gen::GenOpts { big: false, beyond_spec: true };
     (gen::version(), prop_oneof![3 => Just(2usize), 1 => Just(4usize)])
         .prop_flat_map(move |(v, idw)| {
-            (gen::any_packet(v, idw, o), proptest::collection::vec(mut_strategy(), 1..4)).prop_map(move |(ap, muts)| MutCase { idw, ap, muts })
+            let any_prop = proptest::sample::select(PROP_TABLE.iter().map(|s| s.id).collect::<Vec<u8>>()).prop_flat_map(|id| gen::prop_value_valid(id, false));
+            (
+                gen::any_packet(v, idw, o),
+                proptest::collection::vec(mut_strategy(), 0..4),
+                prop_oneof![3 => Just(vec![]), 2 => proptest::collection::vec(any_prop, 1..3)],
+                prop_oneof![3 => Just(None), 1 => any::<u16>().prop_map(Some)],
+            )
+                .prop_map(move |(ap, mut muts, extra_props, dup_prop)| {
+                    if extra_props.is_empty() && dup_prop.is_none() && muts.is_empty() {
+                        muts.push(Mut::Truncate { pos: 0xffff });
+                    }
+                    // structured property mutations are only meaningful when the bytes are not shuffled afterwards
+                    if !extra_props.is_empty() || dup_prop.is_some() {
+                        muts.truncate(1);
+                    }
+                    MutCase { idw, ap, muts, extra_props, dup_prop }
+                })
         })
         .boxed()
 }
 
 pub fn test_mut(c: &MutCase, st: &mut Stats) -> R {
-    let bytes = refcodec::encode(&c.ap, c.idw);
+    let mut ap = c.ap.clone();
+    if let Some(props) = props_mut(&mut ap) {
+        if let (Some(k), false) = (c.dup_prop, props.is_empty()) {
+            let p = props[pick_idx(k, props.len())].clone();
+            props.push(p);
+            st.class("structured: property repeated");
+        }
+        if !c.extra_props.is_empty() {
+            props.extend(c.extra_props.iter().cloned());
+            st.class("structured: property appended");
+        }
+    }
+    let bytes = refcodec::encode(&ap, c.idw);
     let (frames, _) = refcodec::frame(&bytes);
     let refcodec::Frame::Complete { first, body, .. } = &frames[0] else { return Ok(()) };
     let mut first = *first;
